@@ -208,7 +208,13 @@ def run(ctx):
                 lg = len(r)
             except Exception as ex:
                 lg = "len() raised %s" % type(ex).__name__
-            c.require(lg == node.L, "%s:length" % node.op, "len(%s result) = %r, documented rule gives %d" % (node.op, lg, node.L))
+            lkey = "%s:length" % node.op
+            try:
+                if lg != node.L and any(type(k) is M._function and k._iszero() for k in kids):
+                    lkey = "zero-function:length-lost"        # 0*f keeps no record of len(f) (diagnostic naming)
+            except Exception:
+                pass
+            c.require(lg == node.L, lkey, "len(%s result) = %r, documented rule gives %d" % (node.op, lg, node.L))
             if len(c.failed) > failed0:
                 raise S.Abort()
             # ---- variables()
